@@ -78,6 +78,71 @@ prop("C05", "nitrocheck",
      level_text="Round-trip oracle on generated databases and configurations, including mutation and collection during the backup (deterministic hand-over from the item callback).",
      level_note=SEQ_NOTE + " Backups go to tmpfs scratch directories; free-running concurrent mutation during backup is sampled only through the callback hand-over.")
 
+prop("C06", "nitrocheck",
+     [dict(name="TestC06", quick=500, thorough=5000, steps=50)],
+     rule="rapid state machine weighted to deletes across epochs (single and bulk), snapshots closed in drawn (non-FIFO) order, GC; strict mode: after every Close "
+          "that retires a snapshot and after every GC() the harness waits (bounded) for the collection workers and then requires node_count == the epoch model's "
+          "physical count (#live + #versions whose deleting epoch's snapshot chain is not fully closed), soft_deletes == 0, memory_used == the exact byte sum of those "
+          "nodes and items, GetLastGCSn() == the model frontier synchronously after GC(); every open snapshot still scans to its content after every step (precision); "
+          "finally all snapshots are closed in drawn order, everything is deleted and sealed, and MemoryInUse() must be back at the fresh-instance value. "
+          "Non-trivial: a cross-epoch-deleted version was collected while a newer snapshot was still open, or a non-FIFO close order occurred. Distinct = hash of the history.",
+     technique="model-based stateful property testing (epoch/collection-frontier model vs statistics and memory accounting)",
+     design_ref="DESIGN.md §3 C06",
+     level_text="Generated histories against an exact physical-version model; completeness is judged only at points where the property promises a pass (retiring Close, GC()).",
+     level_note=SEQ_NOTE + " A 20 s bounded wait is the only way to observe 'never collected'; it is reached only when collection is genuinely stuck.")
+
+prop("C07", "nitrocheck",
+     [dict(name="TestC07", quick=300, thorough=3000, steps=50)],
+     rule="rapid state machine in user-managed-memory mode on a guard allocator (own page run per block, poison, never reused; trap or quarantine mode drawn): puts, rejected "
+          "puts of live keys, same-epoch and cross-epoch deletes, bulk operations, snapshots closed in drawn order, GC, up to 2 backup+restore cycles (delta on/off) whose "
+          "restored instance runs further operations and is closed; oracle: no bad free at any step; after Close() of each instance (all snapshots/iterators closed) the "
+          "allocator's live set is empty, no double/unknown free, no overrun, no write into freed memory. Non-trivial: history contains a rejected Put, a same-epoch delete, "
+          "a collected cross-epoch version or a restored instance. Distinct = hash of the history.",
+     technique="model-based stateful property testing with a guard allocator as oracle",
+     design_ref="DESIGN.md §3 C07",
+     level_text="Every generated history ends with Close() and an exact allocator audit (deterministic: Close joins the workers in this mode).",
+     level_note=SEQ_NOTE + " Failed restores (LoadFromDisk returning an error) are not judged by this check.")
+
+prop("C18", "slcheck",
+     [dict(name="TestC18Builder", quick=2000, thorough=30000),
+      dict(name="TestC18Merger", quick=3000, thorough=60000)],
+     rule="Builder: 0-8 segments (empty ones anywhere, sizes 0-40, ascending items across the concatenation), filled sequentially or by one goroutine per segment, "
+          "assembled; oracle: scan == concatenation, structural walk of every level (C14 predicate) and statistics == walk, Lookup of every value in range, then 0-30 "
+          "generated Insert/Delete against a set model, scan/walk/statistics again. Non-trivial builder case: >=2 non-empty segments with an empty one before/between them "
+          "and a node of height >=1. Merger: 0-5 lists with drawn overlapping/duplicate/empty contents, program of SeekFirst/Seek(x)/Next/Get with re-positioning before, "
+          "during and after a scan; oracle: position index into the sorted multiset union (Valid, Get, Seek's found flag). Non-trivial merger case: a re-seek after >=1 Next. "
+          "Distinct = hash of the rendered case.",
+     technique="property-based testing with model oracles (concatenation / sorted multiset union) and structural invariant walk",
+     design_ref="DESIGN.md §3 C18",
+     level_text="Generated segment layouts and merge programs against exact sequence oracles.",
+     level_note="Level assignment inside Segment.Add is the library's own PRNG (not drawn); concurrent fill samples the Go scheduler (segments are independent).")
+
+prop("C19", "nitrocheck",
+     [dict(name="TestC19", quick=700, thorough=8000),
+      dict(name="TestC19KV", quick=2000, thorough=40000)],
+     rule="Item sequences (0-12 items; lengths biased to 1-40 with spikes at 255/256/257/65535/65536/65537 and up to 200 KiB; contents biased to zero runs, "
+          "00 00 00 nn length look-alikes, 0xFF, pseudo-random), DiskBlockSize drawn from 5/16/64/4096/512K: (a) real file writer -> file -> real reader: same sequence "
+          "then end-of-stream, reader checksum == writer checksum == independent XOR-of-CRC32 formula; (b) harness-framed older format (2-byte length) -> reader(v0); "
+          "(c) EncodeItem/DecodeItem through a buffer, byte layout == [4-byte BE length][bytes]. TestC19KV: keys 0-65535 bytes / arbitrary values: KVFromBytes(KVToBytes) "
+          "identity and sign(CompareKV) == sign(bytes.Compare(keys)) in both argument orders. Non-trivial: >=2 items, or an item >= 65536 bytes, or >=4 zero bytes "
+          "(KV: both keys non-empty with different lengths, equal keys, or a key >= 256 bytes). Distinct = hash of the rendered input.",
+     technique="round-trip and differential (independent checksum / layout) property-based testing",
+     design_ref="DESIGN.md §3 C19",
+     level_text="Generated inputs with round-trip, layout and independent-checksum oracles through the real file writer/reader (verif accessors).",
+     level_note="The harness's own framing of the older format is the trusted reference for (b).")
+
+prop("C20", "ntcheck",
+     [dict(name="TestC20Table", quick=3000, thorough=60000, steps=40),
+      dict(name="TestC20List", quick=1500, thorough=20000, steps=30)],
+     rule="rapid state machines. Table: Update/Get/Remove over keys of 0-3 symbols from {a,b,c}, hash drawn from {constant, len mod 2, first byte mod 3, crc32}; "
+          "oracle map[key]pointer for every result, ItemsCount == len, MemoryInUse == 42*len after every step. Non-trivial: a fast-table entry was removed while its "
+          "bucket had overflow entries and a key of that bucket was added afterwards. List: Add (new nodes, several with equal key bytes, and re-adding removed nodes), "
+          "Remove(key present/absent), Keys and Head compared with a slice model after every step; non-trivial: >=4 operations and a re-add or duplicate keys in the list.",
+     technique="model-based stateful property testing (map / slice models)",
+     design_ref="DESIGN.md §3 C20",
+     level_text="Generated operation sequences against map and slice models, all hash shapes including total collisions.",
+     level_note="Pointers are addresses of pinned harness records; the shadow of bucket shapes is used only to classify cases.")
+
 NOT_APPLICABLE = {}
 
 ENGINES = [
